@@ -55,6 +55,48 @@ def replay_behaviours(rep, sim_cfg, num, depth=12, seed_off=1, nontrivial=None, 
   return behs
 
 
+def replay_scenarios(rep, scen_cfg, max_files=400, nontrivial=None, fields=None, timeout=900):
+  """Scenario-directed export (GinCore_Scen): one shortest behaviour per scenario key."""
+  import os, shutil, re
+  wd = tlc.scratch()
+  try:
+    out_dir = os.path.join(wd, 'out')
+    os.mkdir(out_dir)
+    res = tlc.run('GinCore_Scen', scen_cfg + '.cfg', workers=1, env=dict(OUT_DIR=out_dir, SCEN_MAX=str(max_files)),
+                  timeout=timeout, workdir=wd)
+    if res.violation:
+      raise tlc.TLCError('scenario export reported %s:\n%s' % (res.violation, res.stdout[-3000:]))
+    behs = []
+    for f in sorted(os.listdir(out_dir), key=lambda x: int(re.sub(r'\D', '', x) or 0)):
+      with open(os.path.join(out_dir, f)) as fh:
+        try:
+          behs.append(json.load(fh))
+        except ValueError:
+          pass
+  finally:
+    shutil.rmtree(wd, ignore_errors=True)
+  rep.add_tlc(scen_cfg + '(bfs,scenario export)', res, exhaustive=False)
+  if not behs:
+    raise tlc.TLCError('no scenario behaviours exported by %s' % scen_cfg)
+  kw = {'fields': fields} if fields else {}
+  for b in behs:
+    rep.behaviours_replayed += 1
+    rep.evaluations += len(b) - 1
+    if nontrivial:
+      for st in b:
+        k = nontrivial(st)
+        if k is not None:
+          rep.nontrivial_case(k)
+    d = A.replay(b, **kw)
+    if d is not None:
+      sig = dict(kind='replay-divergence', module='GinCore', clause=d.get('clause'), action=d.get('action'))
+      rep.violation(sig, dict(kind='behaviour', sim_cfg=scen_cfg, actions=A.actions_of(b), divergence=d, behaviour=b))
+  rep.extra.setdefault('scenario_behaviours', {})[scen_cfg] = len(behs)
+  rep.sample(dict(kind='scenario behaviour (shortest witness) replayed into gin', config=scen_cfg,
+                  actions=A.actions_of(behs[-1])[:8]))
+  return behs
+
+
 def replay_file(prop, path, fields=None):
   with open(path) as fh:
     blob = json.load(fh)
